@@ -27,6 +27,7 @@ import Poulpy.Lemmas.CoreSerDec
 import Poulpy.Lemmas.CoreCmpT
 import Poulpy.Lemmas.CoreSerAll
 import Poulpy.Lemmas.CoreSerCont
+import Poulpy.Lemmas.KeyWrap
 
 namespace C19
 open CoreEnc
@@ -549,6 +550,35 @@ theorem lwe_decompress_old_assert_counterexample :
       Core.decompressLwe 3 2 (Core.lweBodies ct) [1, 2, 3, 4, 5, 6, 7] = some ct ∧
       Core.decompressLweOldAssert 3 2 (Core.lweBodies ct) [1, 2, 3, 4, 5, 6, 7] = none := by
   refine ⟨[[3, -2, -1], [0, 1, 2]], by decide, by decide, by decide⟩
+
+/-! ### switching keys whose secrets live in a smaller ring -/
+
+/-- **`glwe_switching_key_compressed_encrypt_sk` = the standard routine, secrets of any ring degree dividing `n`**: the compressed routine
+is `gglwe_compressed_encrypt_sk` on the EMBEDDED secrets — `znxSwitchRing n` of every column of `sk_in` and of every column of `sk_out`,
+column `i` from column `i` — so each decompressed cell is the standard encryption of the same gadget plaintext under the same embedded
+output secret with the stored seed and the same error (`compressed_cells_eq`), the decompressed key satisfies the same `KeyWellFormed` as
+`glwe_switching_key_encrypt_sk` on the same secrets (C01 `glwe_switching_key_encrypt_sk_wellformed_any_degree`), and both record the
+degrees `(deg sk_in, deg sk_out)` -/
+theorem switching_key_compressed_eq_standard {bits b n size kxe rankOut rankIn dnum dsize : Nat} {H E : Int}
+    (c : KeyCtx bits b n size kxe rankOut H E) (hd : 1 ≤ dsize) (tmp0 : Col) (htl : tmp0.length = size) (htw : WF n tmp0)
+    (skIn skOut : List Poly) (hin : ∀ s ∈ skIn, 0 < s.length ∧ s.length ∣ n ∧ ∀ x ∈ s, |x| ≤ 2 ^ 62)
+    (hout : ∀ s ∈ skOut, 0 < s.length ∧ s.length ∣ n ∧ norm1 s * 2 ^ (b - 1) ≤ H)
+    (expand : List Nat → List Nat) (seedXa : List Nat) (es : List Poly) (hes : ErrOk n E es (rankIn * dnum))
+    (cc : List (Nat × Core.CellC)) (cells : List (Nat × List Col))
+    (h : Core.glweSwitchingKeyEncryptCompressedT tmp0 bits b n size kxe rankOut rankIn dnum dsize skIn skOut expand seedXa es = some cc)
+    (hdec : Core.decompressCells b n rankOut expand cc = some cells) :
+    skIn.length = rankIn ∧ skOut.length = rankOut ∧
+    Core.gglweEncryptCompressedT tmp0 bits b n size kxe rankOut rankIn dnum dsize (skIn.map (znxSwitchRing n)) (skOut.map (znxSwitchRing n))
+      expand seedXa es = some cc ∧
+    KeyWellFormed n b dsize size kxe dnum rankIn (Core.keyMat n dnum rankIn (rankOut + 1) size cells) (skOut.map (znxSwitchRing n))
+      (fun i => Ks.ι n ((skIn.map (znxSwitchRing n)).getD i [])) (fun i r => es.getD (i * dnum + r) []) :=
+  glweSwitchingKeyCompressed_wellformed_deg c hd tmp0 htl htw skIn skOut hin hout expand seedXa es hes cc cells h hdec
+
+/-- non-vacuity: `n = 4`, `rank_out = 2`, output secret of degree 2; the recorded degrees -/
+example : ((Core.glweSwitchingKeyEncryptCompressedT [[0, 0, 0, 0], [0, 0, 0, 0]] 64 3 4 2 5 2 1 1 1 [[1, -1]] [[1, 0], [0, 1]]
+      (fun s => s ++ [1, 2, 3, 4, 5, 6, 7, 8, 9, 10, 11, 12, 13, 14, 15, 16, 17, 18, 19, 20]) [1, 2, 3, 4] [[0, 1, 0, 0]]).bind
+      (Core.decompressCells 3 4 2 (fun s => s ++ [1, 2, 3, 4, 5, 6, 7, 8, 9, 10, 11, 12, 13, 14, 15, 16, 17, 18, 19, 20]))).isSome ∧
+    Core.switchingKeyDegrees [[1, -1]] [[1, 0], [0, 1]] = (2, 2) := by decide
 
 /-! ### the GGLWE→GGSW key: two levels of branching -/
 
